@@ -154,15 +154,22 @@ theorem cons_chunkedLoop : ∀ fuel, PresK (c := c) (chunkedLoop fuel) := by
     simp only [chunkedLoop]
     repeat' split
     all_goals repeat (first | exact h | apply cons_sizeStep _ ih | apply cons_chunkStep _ ih | apply cons_chunkEofStep _ ih | apply cons_trailersStep _ ih)
-theorem cons_ppFeed (d : Bytes) : Pres (c := c) (ppFeed · d) := by
+theorem cons_ppFeedCore (d : Bytes) : Pres (c := c) (ppFeedCore · d) := by
   intro w h
-  simp only [ppFeed]
+  simp only [ppFeedCore]
   split
   · exact cons_feedLength d w h
   · exact cons_feedUntilEof d w h
   · split
     · exact h
     · exact cons_chunkedLoop _ { w with tail := [] } _ h
+theorem cons_ppFeed (d : Bytes) : Pres (c := c) (ppFeed · d) := by
+  intro w h
+  have h1 := cons_ppFeedCore d w h
+  simp only [ppFeed]
+  split
+  · exact h1
+  · exact h1
 theorem cons_parserFeed (d : Bytes) : Pres (c := c) (parserFeed · d) := by
   intro w h
   simp only [parserFeed]
